@@ -161,6 +161,40 @@ func genC07Sites() (string, string) {
 	b.WriteString("/-- package loader: every `if` whose condition reads SkipInterpolation -/\n")
 	b.WriteString("def c07_loader_skip_interpolation : List String :=\n  " + c07StrList(skips) + "\n\n")
 
+	// round 6 (Model/TemplateDocs.lean): who allocates, copies and writes the *interp.Options cell —
+	// every assignment in package loader whose left-hand side mentions `Interpolate`, every `Interpolate:` field of a
+	// composite literal (Options.clone copies the pointer), and every `.clone()` call (who walks with a copied pointer)
+	var cells []string
+	for _, p := range files {
+		base := filepath.Base(p)
+		if strings.HasSuffix(base, "_test.go") || strings.HasPrefix(base, "verif_") {
+			continue
+		}
+		f := c07ParseNoComments(filepath.Join("loader", base))
+		ast.Inspect(f, func(n ast.Node) bool {
+			switch x := n.(type) {
+			case *ast.AssignStmt:
+				for _, l := range x.Lhs {
+					if strings.Contains(src(l), "Interpolate") {
+						cells = append(cells, base+": "+c07Squash(src(x)))
+						break
+					}
+				}
+			case *ast.KeyValueExpr:
+				if src(x.Key) == "Interpolate" {
+					cells = append(cells, base+": field "+c07Squash(src(x)))
+				}
+			case *ast.CallExpr:
+				if sel, ok := x.Fun.(*ast.SelectorExpr); ok && sel.Sel.Name == "clone" {
+					cells = append(cells, base+": call "+c07Squash(src(x)))
+				}
+			}
+			return true
+		})
+	}
+	b.WriteString("/-- package loader: every assignment to / through `Interpolate`, every `Interpolate:` field of a composite literal, every `.clone()` call -/\n")
+	b.WriteString("def c07_interpolate_cells : List String :=\n  " + c07StrList(cells) + "\n\n")
+
 	b.WriteString("end CV.Gen\n")
 	return "C07Sites.lean", b.String()
 }
